@@ -124,6 +124,9 @@ class Reader(object):
         if self.peek() == ' ':
             self.i += 1
             meta = self.meta(v3)
+            if any(k == 'ver' for k, _ in meta):
+                # the header has one version; a further tag of that name has no agreed reading (and no JSON spelling)
+                raise RefReject('second-ver-tag', self.i)
         if not self.nl():
             raise RefReject('header-line', self.i, repr(self.s[self.i:self.i + 12]))
         cols = [self.col(v3)]
